@@ -37,8 +37,21 @@ def vm_obligations(prop="C02"):
     return obs
 
 
+def vm_float_obligations(prop="C02"):
+    obs = []
+    for op in ("ADD", "SUB", "MUL", "DIV", "EQ", "NE", "LT", "LE", "GT", "GE"):
+        o = vmstep.step(prop, "%s.vm.%sf" % (prop, op), "h_c02f", op, must_have=[r"C02\.vm", r"COVER"], timeout=600)
+        o["defines"].update({"VERIF_M0": 1024, "VERIF_M1": 1024, "VERIF_M2": SC, "VERIF_STACK_SIZE": 5})
+        if op in ("MUL", "DIV"):
+            continue            # two IEEE multipliers / dividers compared: no result within 600 s (open)
+        if op in ("ADD", "SUB"):
+            o["tier"] = "thorough"   # ~190 s each
+        obs.append(o)
+    return obs
+
+
 def obligations(repo):
-    obs = vm_obligations()
+    obs = vm_obligations() + vm_float_obligations()
     try:
         import c02_native
         obs += c02_native.native_obligations("C02")
